@@ -32,27 +32,27 @@ def _stages(tier):
     hang = dict(hang_is_violation=True, idle_timeout=40)
     st = [
         dict(name='enum-asan', harness='h_read', flavour='asan', sub='enum', cases=ENUM_CASES, chunks_per_job=6, **hang),
-        dict(name='mut-asan', harness='h_read', flavour='asan', sub='mut', cases=60000 if th else 7000, **hang),
+        dict(name='mut-asan', harness='h_read', flavour='asan', sub='mut', cases=20000 if th else 4000, **hang),
         dict(name='enum-opt', harness='h_read', flavour='opt', sub='enum', cases=ENUM_CASES, chunks_per_job=6, **hang),
-        dict(name='mut-opt', harness='h_read', flavour='opt', sub='mut', cases=400000 if th else 14000, **hang),
+        dict(name='mut-opt', harness='h_read', flavour='opt', sub='mut', cases=100000 if th else 8000, **hang),
         dict(name='enum-complete', harness='h_read', flavour='asan', cases=1, custom='c13_stages:enum_complete'),
-        dict(name='libfuzzer', harness='fz_read', flavour='fuzz', cases=400000 if th else 8000, custom='c13_stages:libfuzzer'),
+        dict(name='libfuzzer', harness='fz_read', flavour='fuzz', cases=60000 if th else 5000, custom='c13_stages:libfuzzer'),
     ]
     if th:
         st += [
-            dict(name='valgrind', harness='h_read', flavour='opt', cases=240, custom='c13_stages:valgrind_subset'),
+            dict(name='valgrind', harness='h_read', flavour='opt', cases=120, custom='c13_stages:valgrind_subset'),
             dict(name='strace-eio', harness='h_read', flavour='opt', cases=4, custom='c13_stages:strace_faults'),
         ]
     return st
 
 
 def _minima(tier):
-    m = {'post.sequences_run': 5000, 'distinct:enum': 3000, 'leakcheck.runs': 3000, 'fuzz.execs.total': 35000}
+    m = {'post.sequences_run': 5000, 'distinct:enum': 3000, 'leakcheck.runs': 3000, 'fuzz.execs.total': 21000}
     for e in ('lp-real', 'lp-rational', 'mps-real', 'mps-rational', 'basis', 'settings-file', 'settings-string'):
         m['entry.%s.inputs' % e] = 300
         m['entry.%s.success' % e] = 20
         m['entry.%s.failure' % e] = 20
-        m['fuzz.execs.%s' % e] = 2500
+        m['fuzz.execs.%s' % e] = 2000
     return m
 
 
